@@ -863,3 +863,62 @@ Lemma x_tree_witness :
   bal s' 5 0 = 7 /\ bal s' 9 0 = 3 /\ allow s' 5 6 = 5 /\
   survivors x_tree = [Call 5 1000 (Approve 6 8); Call 6 1000 (TransferFrom 5 9 3); Call 6 1000 (TransferFrom 5 9 6)].
 Proof. vm_compute. repeat split; reflexivity. Qed.
+
+(* ------------------------------------------------------------------ liveness *)
+
+(* liveness: what the ledger allows does succeed *)
+Definition can_spend (s : state) (owner caller amount : Z) : Prop :=
+  owner = caller \/ allow s owner caller = MAXU256 \/ amount <= allow s owner caller.
+
+Lemma do_transfer_succeeds e s tok tm from to amount :
+  to <> 0 -> 0 <= locked s from (tk_denom tm) -> amount <= bal s from (tk_denom tm) - locked s from (tk_denom tm) ->
+  exists s', do_transfer e s tok tm from to amount = (s', OOk (RBool true) [LTransfer tok from to amount]).
+Proof.
+  intros Hto Hl Ha. unfold do_transfer.
+  destruct (bal s from (tk_denom tm) <? amount) eqn:E1; [lia|].
+  destruct (negb (amount =? 0) && negb (from =? to)) eqn:E2; [|eexists; reflexivity].
+  destruct (to =? 0) eqn:E3; [lia|].
+  unfold send_coins, sub_unlocked.
+  destruct (bal s from (tk_denom tm) - locked s from (tk_denom tm) <? amount) eqn:E4; [lia|].
+  eexists; reflexivity.
+Qed.
+
+Lemma valid_call_succeeds e s caller tok tm :
+  e_token e tok = Some tm -> caller <> 0 ->
+  (forall wsp wamt, addr_of wsp <> 0 ->
+     exists s', evm_call e s caller tok (Approve wsp wamt) =
+                (s', OOk (RBool true) [LApproval tok caller (addr_of wsp) (u256 wamt)])) /\
+  (forall wto wamt, addr_of wto <> 0 -> 0 <= locked s caller (tk_denom tm) ->
+     u256 wamt <= bal s caller (tk_denom tm) - locked s caller (tk_denom tm) ->
+     exists s', evm_call e s caller tok (Transfer wto wamt) =
+                (s', OOk (RBool true) [LTransfer tok caller (addr_of wto) (u256 wamt)])) /\
+  (forall wfrom wto wamt, addr_of wfrom <> 0 -> addr_of wto <> 0 -> 0 <= locked s (addr_of wfrom) (tk_denom tm) ->
+     u256 wamt <= bal s (addr_of wfrom) (tk_denom tm) - locked s (addr_of wfrom) (tk_denom tm) ->
+     can_spend s (addr_of wfrom) caller (u256 wamt) ->
+     exists s', evm_call e s caller tok (TransferFrom wfrom wto wamt) =
+                (s', OOk (RBool true) [LTransfer tok (addr_of wfrom) (addr_of wto) (u256 wamt)])).
+Proof.
+  intros Htok Hc. unfold evm_call. rewrite Htok. split; [|split].
+  - intros wsp wamt Hsp. cbn [exec_method].
+    destruct (caller =? 0) eqn:E1; [lia|]. destruct (addr_of wsp =? 0) eqn:E2; [lia|]. eexists; reflexivity.
+  - intros wto wamt Hto Hl Ha. cbn [exec_method].
+    destruct (caller =? 0) eqn:E1; [lia|]. destruct (addr_of wto =? 0) eqn:E2; [lia|].
+    destruct (do_transfer_succeeds e s tok tm caller (addr_of wto) (u256 wamt) Hto Hl Ha) as [s' ->].
+    eexists; reflexivity.
+  - intros wfrom wto wamt Hf Hto Hl Ha Hs. cbn [exec_method].
+    destruct (addr_of wfrom =? 0) eqn:E1; [lia|]. destruct (addr_of wto =? 0) eqn:E2; [lia|].
+    destruct (addr_of wfrom =? caller) eqn:E3.
+    + destruct (do_transfer_succeeds e s tok tm (addr_of wfrom) (addr_of wto) (u256 wamt) Hto Hl Ha) as [s' ->].
+      eexists; reflexivity.
+    + unfold spend_allowance.
+      destruct (allow s (addr_of wfrom) caller =? MAXU256) eqn:E4.
+      * destruct (do_transfer_succeeds e s tok tm (addr_of wfrom) (addr_of wto) (u256 wamt) Hto Hl Ha) as [s' ->].
+        eexists; reflexivity.
+      * destruct (allow s (addr_of wfrom) caller <? u256 wamt) eqn:E5.
+        { destruct Hs as [Hs|[Hs|Hs]]; lia. }
+        set (s1 := set_allow s (addr_of wfrom) caller (allow s (addr_of wfrom) caller - u256 wamt)).
+        assert (Hl1 : 0 <= locked s1 (addr_of wfrom) (tk_denom tm)) by exact Hl.
+        assert (Ha1 : u256 wamt <= bal s1 (addr_of wfrom) (tk_denom tm) - locked s1 (addr_of wfrom) (tk_denom tm)) by exact Ha.
+        destruct (do_transfer_succeeds e s1 tok tm (addr_of wfrom) (addr_of wto) (u256 wamt) Hto Hl1 Ha1) as [s' ->].
+        eexists; reflexivity.
+Qed.
